@@ -2,6 +2,7 @@ import ACModel.Driver.GroupedList
 import ACModel.Driver.Discretizer
 import ACModel.Driver.Carve
 import ACModel.Driver.BaseDisc
+import ACModel.Driver.Chained
 /-
   acdriver: JSON-lines driver around the executable model and the specification predicates.
   One request per line on stdin, one response per line on stdout.
@@ -21,6 +22,7 @@ def dispatch (j : Json) : R Json := do
   | "quantiles" => DriverBase.quantiles j
   | "ordinal.merge" => DriverBase.ordinalMerge j
   | "kernels" => DriverBase.kernels j
+  | "chained.fit" => DriverChained.chainedFit j
   | "disc.labels" => DriverDisc.labels j
   | "disc.transform" => DriverDisc.transform j
   | "disc.reload" => DriverDisc.reload j
